@@ -1,0 +1,58 @@
+//go:build verif
+
+/*
+Copyright 2025 The Volcano Authors.
+
+Licensed under the Apache License, Version 2.0 (the "License");
+you may not use this file except in compliance with the License.
+You may obtain a copy of the License at
+
+    http://www.apache.org/licenses/LICENSE-2.0
+
+Unless required by applicable law or agreed to in writing, software
+distributed under the License is distributed on an "AS IS" BASIS,
+WITHOUT WARRANTIES OR CONDITIONS OF ANY KIND, either express or implied.
+See the License for the specific language governing permissions and
+limitations under the License.
+*/
+
+package cache
+
+import (
+	v1 "k8s.io/api/core/v1"
+	"k8s.io/apimachinery/pkg/api/resource"
+	kcache "k8s.io/client-go/tools/cache"
+	"k8s.io/klog/v2"
+	"k8s.io/kubernetes/pkg/scheduler/util/assumecache"
+
+	schedulingapi "volcano.sh/volcano/pkg/scheduler/api"
+)
+
+// This file only exists with the build tag "verif". It exposes, unchanged, the
+// code that builds TaskInfo.DRAResreq from a pod's ResourceClaims, so that an
+// external harness can run it on ResourceClaims of its own.
+
+// VerifNewDRAClaimCache returns a SchedulerCache that has nothing but a
+// ResourceClaim cache fed by the given informer (the set-up of
+// TestBuildTaskDRAInfo).
+func VerifNewDRAClaimCache(claimInformer kcache.SharedIndexInformer) *SchedulerCache {
+	return &SchedulerCache{
+		resourceClaimCache: assumecache.NewAssumeCache(klog.Background(), claimInformer, "ResourceClaim", "", nil),
+	}
+}
+
+// VerifHasResourceClaim reports whether the ResourceClaim cache already holds key ("namespace/name").
+func (sc *SchedulerCache) VerifHasResourceClaim(key string) bool {
+	obj, err := sc.resourceClaimCache.Get(key)
+	return err == nil && obj != nil
+}
+
+// VerifBuildTaskDRAInfo runs buildTaskDRAInfo.
+func (sc *SchedulerCache) VerifBuildTaskDRAInfo(pod *v1.Pod) (map[string]*schedulingapi.DRAResource, map[string]map[string]*schedulingapi.DRAResource, []string, error) {
+	return sc.buildTaskDRAInfo(pod)
+}
+
+// VerifAddDRAResource runs addDRAResource.
+func VerifAddDRAResource(dst map[string]*schedulingapi.DRAResource, deviceClass string, count int64, capacity map[string]resource.Quantity) {
+	addDRAResource(dst, deviceClass, count, capacity)
+}
